@@ -34,6 +34,8 @@ func init() {
 	})
 }
 
+var c20flagN int
+
 type faultyReader struct {
 	data  []byte
 	pos   int
@@ -437,6 +439,14 @@ func runC20(c *Ctx) {
 				var fl zapcore.Level = zapcore.Level(42)
 				fs.Var(&fl, "level", "")
 				err = fs.Parse([]string{"-level=" + op.text})
+				if op.chunk%5 == 0 {
+					// the package-level flag helper (registers on flag.CommandLine)
+					c20flagN++
+					name := fmt.Sprintf("zsim-level-%d", c20flagN)
+					lp := zap.LevelFlag(name, zapcore.Level(42), "")
+					err = flag.Set(name, op.text)
+					fl = *lp
+				}
 				if err == nil {
 					lvl2 := target
 					if op.zero {
